@@ -2,7 +2,7 @@
 from __future__ import annotations
 
 from . import scopes
-from . import lib_tree, lib_guards, lib_module, lib_py
+from . import lib_tree, lib_guards, lib_module, lib_py, lib_mem
 
 LEVEL = "other"
 EXPLANATION = ("Completeness of tsk_tree_copy / tsk_tree_clear over every array and position-dependent scalar of tsk_tree_t, "
@@ -16,6 +16,7 @@ def run(ctx):
     py = ctx.python()
     ps, ms = scopes.py_scope("C06"), scopes.module_scope("C06")
     lib_tree.tree_copy_clear(ctx, P)
+    lib_mem.sizeof_elements(ctx, P, tus=["trees"], funcs=lambda f: f.startswith("tsk_tree_"))
     lib_tree.index_domains(ctx, P)
     lib_tree.mirror_pairs(ctx, P)
     lib_tree.inverse_pairs(ctx, P)
